@@ -446,6 +446,7 @@ def run(ctx):
     reps.append(rule_census(ctx, "C07"))
     import r_layout
     reps.append(r_layout.rule_waste(ctx, "C07"))
+    reps.append(r_layout.rule_trial_shape(ctx, "C07"))
     # the stated belief of block::prefix_remove_leading_newlines (`other => unreachable!("got non-parentheses expression
     # as prefix")`): a Prefix::Expression leaves the formatter parenthesised on every layout path
     import r_paren
